@@ -478,6 +478,20 @@ func (fv *FuncVC) resolveModifies(con *Contract, env *Env) []modTarget {
 			for _, lf := range g.fieldLeaves(pt.Elem(), path[0]) {
 				add(lf.name, lf.sort, base.T)
 			}
+		case *ast.IndexExpr:
+			// ghost[idx]: one entry of an indexed ghost (e.g. lmem[c.accessList]: the member set of one list)
+			if id, ok := n.X.(*ast.Ident); ok {
+				if gt, ok := g.spec.Ghosts[id.Name]; ok {
+					t := g.resolveType(gt)
+					idx := env.tr(n.Index)
+					fv.reportSpecErrs(env, &Clause{File: con.File, Line: con.Line})
+					if s := fv.sortOf(t); strings.HasPrefix(s, "(Array Int ") && idx.T != "" {
+						add("GH$"+id.Name, s, idx.T)
+						continue
+					}
+				}
+			}
+			fv.unsupp("modifies: bad designator %q", d)
 		case *ast.StarExpr:
 			base := env.tr(n.X)
 			if base.Typ == nil {
@@ -793,7 +807,10 @@ func (fv *FuncVC) callAsserts(keys []string, ord int, args []*Val, callee *ssa.F
 			label = "callassert"
 		}
 		fv.oblige("assert", fmt.Sprintf("%s@%s#%d", label, keys[0], ord), fv.propsFor(ca.Clause), t.T, ca.Clause.Src, fv.posStr(pos))
-		fv.assume(t.T)
+		// (clauses labelled kf-... are recorded known findings, expected to fail: never assumed)
+		if !strings.HasPrefix(label, "kf-") {
+			fv.assume(t.T)
+		}
 	}
 }
 
